@@ -324,6 +324,12 @@ impl Client {
         Ok(session)
     }
 
+    /// Verification hook: the client's session pool.
+    #[cfg(feature = "verif-hooks")]
+    pub fn verif_session_pool(&self) -> Arc<SessionPool> {
+        Arc::clone(&self.session_pool)
+    }
+
     /// Stop the background cleanup task in the session pool (primarily for tests)
     pub async fn stop_session_pool_cleanup(&self) {
         self.session_pool.stop_cleanup_task().await;
